@@ -33,6 +33,7 @@ def step (line : String) : String :=
   | "rqreuse" :: rest => Driver.ReqClient.runReuse rest
   | "rqstall" :: rest => Driver.ReqClient.runStall rest
   | "rqlate" :: rest => Driver.ReqClient.runLate rest
+  | "rqstagger" :: rest => Driver.ReqClient.runStagger rest
   | "ppraw" :: rest => Driver.SubClient.run rest
   | "rp" :: rest => Driver.Replier.run rest
   | "pp" :: rest => Driver.PubClient.run rest
